@@ -39,7 +39,7 @@ def mutate_hex(rnd, h):
     return bytes(b).hex()
 
 
-MUTABLE = {"RUN": (5, 6), "RUNV": (5, 6), "SESSION": (5, 6, 7), "SESSIONV": (5, 6, 7), "EXEC": (5, 6, 7, 9), "EXECF": (5, 6, 7, 9), "DUAL": (), "DISPLAY": (), "FLAGS": (1,), "SN": (1,),
+MUTABLE = {"RUN": (5, 6), "RUNV": (5, 6), "SESSION": (5, 6, 7), "SESSIONV": (5, 6, 7), "EXEC": (5, 6, 7, 9), "EXECF": (5, 6, 7, 9), "SESSIONX": (5, 6, 7), "SESSIONF": (5, 6, 7), "DUAL": (), "DISPLAY": (), "FLAGS": (1,), "SN": (1,),
            "TXPARSE": (1,), "AMOUNT": (1,), "TXARG": (1,), "SPEND": (1, 2, 6, 8, 9), "SPENDR": (1, 2, 6, 8, 9), "TCE": (1, 2, 3), "PRUN": (1, 6, 7),
            "KARGV": (), "KCITE": (), "KMORE": (), "KESC": (), "KUNESC": (), "KSTRIP": (), "KDUPCMD": (), "KEXEC": (), "KRUN": (), "KHIST": ()}
 
